@@ -495,6 +495,8 @@ def rule_N3(ctx):
             return int(a[1][1:])
         if const_of(k) is not None:
             return "the constant %s" % show_key(k)  # a constant where a child's R is expected
+        if a is not None and a[0] == "sub":
+            return "%s (an element the child list does not have)" % show_key(k)  # wrong arm for this number of children
         return None
 
     concrete_ok = True
@@ -705,6 +707,8 @@ def _analyse_backend(ctx, fi, sites):
                     d_ok, d_why = False, "the mask %s leaves zero entries in place: np.log then yields -inf" % u(tgt.slice if isinstance(tgt, ast.Subscript) else tgt)
                 elif c1 <= 0:
                     d_ok, d_why = False, "non-positive entries are replaced by %r, which is not positive" % c1
+                elif c1 > 1e-100:
+                    d_ok, d_why = False, "non-positive entries are replaced by %r: the statement's underflow floor is 1e-100 of the children's peak product (a larger floor lifts every underflowed grid point to that value)" % c1
                 elif c0 > c1:
                     d_ok, d_why = False, "entries up to %r are replaced by the smaller value %r" % (c0, c1)
                 else:
@@ -1407,4 +1411,8 @@ SELFTEST = [
     {"name": "benign-path-reversed-by-slice", "kind": "benign", "file": _T, "old": "        for source in reversed(path):\n            self._update_node(source)", "new": "        for idx in path[::-1]:\n            self._update_node(idx)"},
     {"name": "benign-children-gathered-by-loop", "kind": "benign", "file": _T, "old": "        child_log_r_values = [child.log_r for child in self._graph.successors(node_idx)]\n", "new": "        kids = self._graph.successors(node_idx)\n        child_log_r_values = [k.log_r for k in kids]\n"},
     {"name": "benign-prior-as-log-of-reciprocal", "kind": "benign", "file": _T, "old": "        self._log_prior = -np.log(grid_size[1])", "new": "        num_grid = grid_size[1]\n        self._log_prior = np.log(1 / num_grid)"},
+    {"name": "N4-floor-one", "kind": "break", "rule": "N4", "file": "phyclone/tree/utils.py", "old": "    log_D[log_D <= 0] = 1e-100", "new": "    log_D[log_D <= 0] = 1.0"},
+    {"name": "N1-one-child-treated-as-leaf", "kind": "break", "rule": ["N1", "TS"], "file": "phyclone/tree/tree_node.py", "old": "        if len(child_log_r_values) == 0:\n            np.copyto(log_r, log_p)", "new": "        if len(child_log_r_values) <= 1:\n            np.copyto(log_r, log_p)"},
+    {"name": "N3-two-children-take-first", "kind": "break", "rule": "N3", "file": "phyclone/tree/utils.py", "old": "    if num_children == 1:\n        return child_log_R_values[0]", "new": "    if num_children <= 2:\n        return child_log_R_values[0]"},
+    {"name": "TS-path-refresh-skips-nodes", "kind": "break", "rule": ["TS", "N5"], "file": "phyclone/tree/tree.py", "old": "        for source in reversed(path):\n            self._update_node(source)", "new": "        for source in reversed(path[1:]):\n            self._update_node(source)"},
 ]
